@@ -47,6 +47,13 @@ def run(repo, tier) -> Result:
     from ..driver import check_merge_callers
 
     check_merge_callers("C01", res, repo)
+    # collapsing timeframes: incremental == batch rests on the walk being the same function of the stream however it is chunked
+    from ..framework_rules import check_candle_geometry_pure
+    from ..manager_rules import check_collapse, check_epoch
+
+    check_candle_geometry_pure("C01", res, repo)
+    check_epoch("C01", res, repo)
+    check_collapse("C01", res, repo, want=("R-INTERVAL", "R-CONSERVE", "R-INVARIANT"))
     from ..contracts import check_all
 
     check_all("C01", res, repo)
